@@ -78,6 +78,29 @@ def run(tier):
         src += "fn main()\n{\n\tvar c: char8 = '%s';\n\tprint!(%s, \"ü\");\n}\n" % (rng.choice(["a", "\\x41", "\\n", "\\'"]), rng.choice(lits))
         cid = "u%d" % i
         cases.append((cid, src.encode("utf-8"), "unicode-strings")); valid.append(cid)
+    # integer literals around every power of two that matters (the digit loops carry checked arithmetic)
+    kb = 0
+    for e in (7, 8, 15, 16, 31, 32, 63, 64, 127, 128, 129):
+        for d_ in (-2, -1, 0, 1, 2, 3, 4):
+            v = (1 << e) + d_
+            for sp in (str(v), "0x%x" % v, "0b" + bin(v)[2:], "%du128" % v, "-%d" % v):
+                cid = "bi%d" % kb; kb += 1
+                cases.append((cid, ("const K: u128 = %s;\n" % sp).encode(), "boundary-integers"))
+                if e < 128 and not sp.startswith("-"): valid.append(cid)
+    for sp in ["9" * n_ for n_ in (38, 39, 40, 60, 300)] + ["1" + "0" * n_ for n_ in (37, 38, 39, 40)] + ["0x" + "f" * n_ for n_ in (31, 32, 33, 64)] + ["0b" + "1" * n_ for n_ in (127, 128, 129, 256)]:
+        cases.append(("bi%d" % kb, ("const K: u128 = %s;\n" % sp).encode(), "boundary-integers")); kb += 1
+    # one token repeated around every counter width (8-bit depth counters, 16-bit lengths)
+    for tok in ("&", "(", "[", "{", "-", "!", "|", "&&", "[]", ".x", "[0]", " as u8", "+1", "x,", ";", "&[]", "&[1]", "pub ", "extern "):
+        for cnt in (126, 127, 128, 129, 254, 255, 256, 257, 300, 1000, 65535, 65536, 65537):
+            if cnt > 1000 and tier == "quick" and tok not in ("&", "(", "+1", ";"): continue
+            for tmpl in ("fn f(){var p=%sx;}", "fn f(p:%si32){}", "fn f(){x%s;}", "%s"):
+                cases.append(("rp%d" % kb, (tmpl % (tok * cnt)).encode(), "repeated-token")); kb += 1
+    # dense well-formed modules below the token limit: no resource limit may be reported
+    for cnt in (100, 1000, 1500, 2047, 2048, 3000, 4095, 4096, 8000, 16000, 30000):
+        cid = "dv%d" % cnt; valid.append(cid)
+        cases.append((cid, ("const TABLE:[%d]u8=[%s];" % (cnt, ",".join(str(j % 10) for j in range(cnt)))).encode(), "dense-valid"))
+        cid = "dw%d" % cnt; valid.append(cid)
+        cases.append((cid, ("fn f(){" + "x=x+1;" * (cnt // 6) + "}").encode(), "dense-valid"))
     L = 2 if tier == "quick" else 3
     k = 0
     for n_ in range(1, L + 1):
